@@ -88,7 +88,11 @@ def build(kinds: Sequence[str], decl_pos: Sequence[str], use_pos: Sequence[str],
     setup.append('mon.write("s")')
     src = common.script(setup, (loop_decls + loop_body + ['mon.write("l")', "sleep(3)"]) if main_loop else None, prologue=PRO)
     run = {"passes": passes, "dr": {12: [0, 1, 1, 0], 32: [1, 0, 1, 1]}, "ar": {"A1": [5, 6, 7, 8], "A2": [9, 10, 11]}, "pulse": [583, 1166, 0, 0, 0, 583]}
-    return {"id": f"D:{'+'.join(kinds)}:{','.join(decl_pos)}:{','.join(use_pos)}:{int(main_loop)}:{passes}", "src": src, "runs": [run], "meta": meta, "kinds": list(kinds), "space": "D"}
+    runs = [run]
+    if "button" in kinds:
+        # ... and with the button line at the pressed level while the sketch starts
+        runs.append(dict(run, dr={12: [1, 1, 0, 1], 32: [0, 0, 1, 0]}))
+    return {"id": f"D:{'+'.join(kinds)}:{','.join(decl_pos)}:{','.join(use_pos)}:{int(main_loop)}:{passes}", "src": src, "runs": runs, "meta": meta, "kinds": list(kinds), "space": "D"}
 
 
 def gen_devices(tier: str) -> Iterator[dict]:
@@ -112,6 +116,40 @@ def gen_devices(tier: str) -> Iterator[dict]:
                             case = build(kinds, dpos, upos, main_loop, passes)
                             if case is not None:
                                 yield case
+
+
+def gen_pin_forms(tier: str) -> Iterator[dict]:
+    """The same single-device scripts with the pins given by sketch variables: initialised with a constant, or derived from
+    another variable (so that they receive their value at run time, in setup()): configuration must use the pin the
+    device really has."""
+    import re
+
+    for kind, spec in KINDS.items():
+        if not spec["pins"] or kind == "pot":
+            continue
+        for form in ("const_var", "derived_var", "reassigned_var"):
+            for upos in ("setup", "loop", "both"):
+                for passes in (0, 2):
+                    case = build((kind,), ("setup",), (upos,), True, passes)
+                    if case is None:
+                        continue
+                    decl = _decl(kind)
+                    names = [f"pin_{kind}{i}" for i in range(len(spec["pins"]))]
+                    new_decl = decl
+                    for name, pin in zip(names, spec["pins"]):
+                        new_decl = re.sub(rf"(?<![\w=]){pin}(?!\w)", name, new_decl, count=1) if f"={pin}" not in new_decl else new_decl.replace(f"={pin}", f"={name}", 1)
+                    if new_decl == decl:
+                        continue
+                    if form == "const_var":
+                        prelude = [f"{name} = {pin}" for name, pin in zip(names, spec["pins"])]
+                    elif form == "derived_var":
+                        prelude = ["pin_base = 1"] + [f"{name} = pin_base + {pin - 1}" for name, pin in zip(names, spec["pins"])]
+                    else:
+                        prelude = [f"{name} = 0" for name in names] + [f"{name} = {pin}" for name, pin in zip(names, spec["pins"])]
+                    src = case["src"].replace(decl + "\n", "\n".join(prelude + [new_decl]) + "\n", 1)
+                    if src == case["src"]:
+                        continue
+                    yield dict(case, id=f"P:{kind}:{form}:{upos}:{passes}", src=src, space="D")
 
 
 # -- variable lifetime / exactly-once / break ------------------------------------------------------
@@ -204,6 +242,17 @@ def gen_anim_sites(tier: str) -> Iterator[dict]:
                     # helpers are defined after the displays they use (documented style)
                     src = common.script(setup[: 1 + (n_lcd == 2)] + defs + setup[1 + (n_lcd == 2):], loop, prologue=PRO)
                     yield {"id": f"A:{'+'.join(sites)}:{'+'.join(kinds)}:{n_lcd}", "space": "A", "src": src, "runs": [{"passes": 8}], "kinds": [], "meta": {}, "plan": plan}
+                    if defs:
+                        # the helpers come first: right after the import lines, above the serial monitor and the displays
+                        pro_lines = PRO.rstrip("\n").split("\n")
+                        imports = [ln for ln in pro_lines if ln.startswith(("from ", "import ", "target("))]
+                        others = [ln for ln in pro_lines if ln not in imports]
+                        src2 = "\n".join(imports + defs + others + setup + ["while True:"] + common.indent(loop)) + "\n"
+                        yield {"id": f"A:{'+'.join(sites)}:{'+'.join(kinds)}:{n_lcd}:helpers-first", "space": "A", "src": src2, "runs": [{"passes": 8}], "kinds": [], "meta": {}, "plan": plan}
+                        # ... and with nothing but one-name imports above them (the build directive comes later)
+                        single = ["from Reduino.Displays import LCD", "from Reduino.Communication import SerialMonitor", "from Reduino.Utils import sleep"]
+                        src3 = "\n".join(single + defs + ["from Reduino import target", 'target("COM3")'] + others + setup + ["while True:"] + common.indent(loop)) + "\n"
+                        yield {"id": f"A:{'+'.join(sites)}:{'+'.join(kinds)}:{n_lcd}:helpers-very-first", "space": "A", "src": src3, "runs": [{"passes": 8}], "kinds": [], "meta": {}, "plan": plan}
 
 
 def anim_site_monitor(case, dr) -> Optional[str]:
@@ -452,6 +501,7 @@ def judge(case, tr, dev_runs, host_runs):
 def generate(tier: str, only=None) -> Iterator[dict]:
     if not only or "D" in only:
         yield from gen_devices(tier)
+        yield from gen_pin_forms(tier)
     if not only or "V" in only:
         yield from gen_lifetime(tier)
     if not only or "A" in only:
